@@ -170,7 +170,7 @@ func runC12Alive(mode int) (events []sx.V, fails []c12Fail, bad string) {
 			if n := srv.pings.Load(); n < 2 {
 				fail("ping-missing", fmt.Sprintf("the server received %d pings in %v (one every 3 s expected)", n, time.Since(t0).Round(time.Second)))
 			}
-			if conn.AverageRoundTrip() <= 0 {
+			if rt, answered := c12Watch(func() time.Duration { return conn.AverageRoundTrip() }); answered && rt <= 0 {
 				fail("pong-unmatched", "AverageRoundTrip() is 0 although every ping was answered: pongs are not matched with their pings")
 			}
 		}
@@ -492,9 +492,9 @@ func runC12OutageD(long bool, D time.Duration) (events []sx.V, fails []c12Fail, 
 		}
 		l.mu.Unlock()
 		fail(key, fmt.Sprintf("the server was away for %v after the failed send and has been back for %v: the connection is not re-established, IsOK()=%v "+
-			"(the server turned %d attempts away, the last one %v after the failed send)", outage, time.Since(tBack).Round(time.Millisecond), e.cl.IsOK(), n, last.Round(time.Millisecond)))
+			"(the server turned %d attempts away, the last one %v after the failed send)", outage, time.Since(tBack).Round(time.Millisecond), c12IsOK(e.cl), n, last.Round(time.Millisecond)))
 	}
-	if !e.cl.IsOK() && ok {
+	if !c12IsOK(e.cl) && ok {
 		fail(key, "IsOK() is false after the connection was re-established")
 	}
 	okc := 0
@@ -518,7 +518,7 @@ func runC12OutageD(long bool, D time.Duration) (events []sx.V, fails []c12Fail, 
 	for _, ev := range log {
 		events = append(events, ev.v)
 	}
-	events = append(events, sx.L(sx.A("reg"), sx.Nat(e.cl.VerifRegistrySize())))
+	events = append(events, sx.L(sx.A("reg"), sx.Nat(c12RegSize(e.cl))))
 	return events, fails, bad, slow
 }
 
@@ -686,7 +686,7 @@ func runC12BlackHoleAuthD(phase, nconn int, auth bool, D time.Duration) (events 
 	if !ok {
 		st, _ := c12Status(e.conns[0])
 		fail("no-reconnect-after-black-hole", fmt.Sprintf("phase %d: the server has behaved for new connections since %v after the failed send, but %v after it connection 0 is not re-established (status %d, IsOK %v): "+
-			"the attempt that fell into the hole never ends", phase, c12HoleHeal, time.Since(tRec).Round(time.Millisecond), st, e.cl.IsOK()))
+			"the attempt that fell into the hole never ends", phase, c12HoleHeal, time.Since(tRec).Round(time.Millisecond), st, c12IsOK(e.cl)))
 	} else {
 		okc := 0
 		for n := 0; n < 2*nconn && bad == ""; n++ {
@@ -717,7 +717,7 @@ func runC12BlackHoleAuthD(phase, nconn int, auth bool, D time.Duration) (events 
 	}
 	l.mu.Unlock()
 	events = c12TimedHistoryUp(e.srv, t0, log, false, auth)
-	events = append(events, sx.L(sx.A("reg"), sx.Nat(e.cl.VerifRegistrySize())))
+	events = append(events, sx.L(sx.A("reg"), sx.Nat(c12RegSize(e.cl))))
 	return events, fails, bad, slow
 }
 
@@ -903,4 +903,10 @@ func runC12Overlap(rounds, k int) (fails []c12Fail, bad string) {
 		}
 	}
 	return fails, ""
+}
+
+// IsOK takes every connection's mutex: under a watchdog (false when it does not return)
+func c12IsOK(cl *liteclient.Client) bool {
+	v, answered := c12Watch(func() bool { return cl.IsOK() })
+	return answered && v
 }
